@@ -181,6 +181,8 @@ def ttl_cases():
                 [[b'dump', b'k']], [[b'expireat', b'k', b'2000000']], [[b'pexpireat', b'k', b'2000000000']], [[b'expireat', b'k', b'1']], [[b'smove', b'k', b'k3', b'a'], [b'ttl', b'k3']],
                 [[b'multi'], [b'persist', b'k'], [b'ttl', b'k'], [b'exec']], [[b'multi'], [b'select', b'5'], [b'set', b'k', b'v', b'ex', b'10'], [b'ttl', b'k'], [b'exec'], [b'ttl', b'k'], [b'select', b'0']],
                 [[b'swapdb', b'0', b'1'], [b'ttl', b'k'], [b'select', b'1'], [b'ttl', b'k'], [b'select', b'0']],
+                [[b'pexpire', b'k', b'2500']], [[b'pexpire', b'k', b'500']], [[b'pexpire', b'k', b'3500']], [[b'pexpire', b'k', b'499']], [[b'pexpire', b'k', b'1']],
+                [[b'pexpireat', b'k', b'1048576000500']], [[b'set', b'k', b'n', b'px', b'2500']], [[b'psetex', b'k', b'4500', b'n']],
                 [[b'pfadd', b'k', b'x']], [[b'pfadd', b'src', b'q'], [b'pfmerge', b'k', b'src'], [b'pfcount', b'k']], [[b'pfmerge', b'k', b'nosuch']],
                 [[b'pfadd', b'src', b'q'], [b'pfmerge', b'src', b'k'], [b'ttl', b'src']], [[b'hincrbyfloat', b'k', b'n', b'1.5']], [[b'decrby', b'k', b'1']],
                 [[b'lpop', b'k']], [[b'sinterstore', b'k', b'k']], [[b'sunionstore', b'k', b'k']], [[b'zinterstore', b'k', b'1', b'k']], [[b'restore', b'k', b'0', b'x', b'replace']],
